@@ -38,10 +38,13 @@ CONFIGS = {
     "quick": [("shapes-all", "AllKinds", 4, "Palette2"), ("shapes-text", TEXTK, 6, "Palette1"),
               # every string of <= 2 classes, plus format metacharacters (% templates, str.format templates: %%, %s, a%, {0}, {} ..)
               # in glyph text, font, figure and image names
-              ("strings", STRK, 3, "StringsQuick"), ("sinks", SINKK, 3, "StrSinks2")],
+              ("strings", STRK, 3, "StringsQuick"), ("sinks", SINKK, 3, "StrSinks2"),
+              # the kinds of sink: StringIO / BytesIO and real files in every binary / text mode, temporary files
+              ("sink-kinds", SINKK, 2, "SinkPalette")],
     "thorough": [("shapes-all", "AllKinds", 5, "Palette2"), ("shapes-text", TEXTK, 7, "Palette1"),
                  ("shapes-figure", FIGK, 5, "Palette2"), ("strings", STRK, 3, "Str3"), ("shapes-all6", "AllKinds", 6, "Palette1"),
-                 ("sinks", SINKK, 3, "StrSinks3"), ("format", STRK, 3, "StrFormat3")],
+                 ("sinks", SINKK, 3, "StrSinks3"), ("format", STRK, 3, "StrFormat3"),
+                 ("sink-kinds", STRK, 3, "SinkPalette")],
 }
 CODECS = [(C.K_UTF8, "utf-8", "u8"), (C.K_UTF16, "utf-16", "u16"), (C.K_LATIN1, "latin-1", "l1")]
 # further members of the codec classes of ConvOps.tla: ASCII-escaping / shifting (modelled: u7, hz, jp), and class-mates of the
@@ -285,6 +288,37 @@ def replay_tree(ck, judge, T, conv, strip, imgw, rep, label, sample=False, more_
                    "conv": conv, "strip_control": strip, "output": real_s[:400]})
 
 
+def replay_sink_kind(ck, rec, n):
+    """a terminal state whose sink is a real file: same characters as on a StringIO, whatever mode the file was opened in"""
+    T, conv, strip, imgw, kind = rec["T"], rec["conv"], rec["strip"], rec["imgw"], rec["sk"]
+    con = C.Concrete(n)
+    pages, nums = C.build_direct(T, con)
+    con.nums = nums
+    want = con.text(C.model_chars(T, conv, strip, imgw, set()))
+    rp = {"tree": T, "conv": conv, "strip": strip, "imgw": imgw, "rep": n, "sink_kind": kind}
+    what = "tree %s" % "/".join(x["k"] for x in T)
+    codec = ("utf-8", "utf-16")[n % 2]
+    ck.case(1, ("sink-kind", kind, conv, json.dumps(T)))
+    try:
+        binary, got = C.run_converter_on(pages, conv, kind, codec, strip, imgw, ck.tmp)
+    except MachineryError:
+        raise
+    except Exception as e:  # noqa: BLE001
+        ck.violation("sink-kind:%s:exception:%s" % (kind, type(e).__name__), "%s converter raised %r writing %s to a file opened as %s"
+                     % (conv, e, what, kind), rp)
+        return
+    if binary:
+        if conv == "xml":
+            want = want.replace(XML_DECL, '<?xml version="1.0" encoding="%s" ?>' % codec, 1)
+        try:
+            got = got.decode(codec)
+        except UnicodeDecodeError as e:
+            got = "<undecodable: %s>" % e
+    if got != want:
+        ck.violation("sink-kind:%s:differs" % kind, "%s output of %s in a file opened as %s is %r; a StringIO receives %r"
+                     % (conv, what, kind, got[:80], want[:80]), rp)
+
+
 def direction_a_model(ck, dev, judge):
     total = 0
     for (label, kinds, maxn, strings) in CONFIGS[ck.tier]:
@@ -299,8 +333,9 @@ def direction_a_model(ck, dev, judge):
                     % (mod, kinds, devs))
         cfg = write_cfg(os.path.join(ck.tmp, mod + ".cfg"),
                         constants={"MaxNodes": maxn, "Strings": "<- " + strings, "Kinds": "<- TheKinds", "DevChoices": "<- TheDevs",
-                                   "ShiftSinks": "TRUE" if label == "sinks" else "FALSE"},
-                        invariants=["TextIsTreeText", "XMLWellFormed", "XMLParsesBackToTree", "SinkIndependent", "StackIsPath"],
+                                   "ShiftSinks": "TRUE" if label == "sinks" else "FALSE",
+                                   "SinkKinds": "<- SinkKindsAll" if label == "sink-kinds" else "<- MemoryOnly"},
+                        invariants=["TextIsTreeText", "XMLWellFormed", "XMLParsesBackToTree", "SinkIndependent", "StackIsPath", "SinkKindRecognised"],
                         constraints=["EmitTerminal"])
         emit = os.path.join(ck.tmp, mod + ".ndjson")
         cov = ck.tier == "quick" and label == "strings"
@@ -319,6 +354,10 @@ def direction_a_model(ck, dev, judge):
                 if rec["dev"]:
                     continue            # as-coded outputs are recomputed by the (now validated) transcription
                 # the sinks config is realised with the representative set that has a CJK ideograph (hz / iso2022_jp can carry it)
+                if label == "sink-kinds" and rec["sk"] not in ("StringIO", "BytesIO"):
+                    replay_sink_kind(ck, rec, n)
+                    ck.replayed += 1
+                    continue
                 replay_tree(ck, judge, rec["T"], rec["conv"], rec["strip"], rec["imgw"], 1 if label == "sinks" else n, label,
                             sample=(n % 9973 == 1), more_codecs=(label == "sinks"), tc=rec["tc"])
                 ck.replayed += 1
@@ -336,7 +375,7 @@ def teeth(ck):
     if ck.tier == "quick":
         return teeth_quick(ck)
     pairs = [("FigureNameRaw", "P_XMLWellFormed"), ("TextSinkUtf8", "P_SinkIndependent"), ("BomPerWrite", "P_XMLWellFormed"),
-             ("AsciiBypass", "P_SinkIndependent"), ("TextSinkCodecFilter", "P_TextIsTreeText"), ("EmptyCodecDeclared", "P_XMLWellFormed")]
+             ("AsciiBypass", "P_SinkIndependent"), ("TextSinkCodecFilter", "P_TextIsTreeText"), ("EmptyCodecDeclared", "P_XMLWellFormed"), ("ModeEndsWithB", "P_SinkKindRecognised")]
     if ck.tier == "thorough":
         pairs += [("BomPerWrite", "P_SinkIndependent"), ("FigureNameRaw", "P_XMLParsesBackToTree")]
     found = {}
@@ -347,7 +386,8 @@ def teeth(ck):
             f.write('---- MODULE %s ----\nEXTENDS MC_Converters\nTheDevs == {{"%s"}}\nTheKinds == {"page", "figure", "char"}\n====\n' % (mod, d))
         cfg = write_cfg(os.path.join(ck.tmp, mod + ".cfg"),
                         constants={"MaxNodes": 3, "Strings": "<- " + ("StrSinks2" if d in ("AsciiBypass", "TextSinkCodecFilter", "EmptyCodecDeclared") else "Palette2"), "Kinds": "<- TheKinds",
-                                   "DevChoices": "<- TheDevs", "ShiftSinks": "TRUE" if d in ("AsciiBypass", "TextSinkCodecFilter", "EmptyCodecDeclared") else "FALSE"},
+                                   "DevChoices": "<- TheDevs", "ShiftSinks": "TRUE" if d in ("AsciiBypass", "TextSinkCodecFilter", "EmptyCodecDeclared") else "FALSE",
+                                   "SinkKinds": "<- SinkKindsAll" if d == "ModeEndsWithB" else "<- MemoryOnly"},
                         invariants=[inv])
         res = run_tlc(wrapper, cfg, workers=2, timeout=600, lib=os.path.join(SPECS, "conv"), env=JVM)
         ck.add_tlc(res, "counterexample search: %s alone against %s" % (d, inv))
